@@ -692,29 +692,35 @@ func (env *rEnv) call(n *rNode) Value {
 				params.next = 0
 				c := &evalCtx{e: e, st: env.post, params: &params, table: info.Table}
 				name := n.Args[3].Text
-				if strings.HasPrefix(name, "where:") {
-					for _, cj := range conjuncts(info.Stmt.Where) {
-						if cj.Op == "=" && cj.Args[0].Op == "col" && strings.EqualFold(cj.Args[0].Name, name[6:]) {
-							if v := c.eval(cj.Args[1]); !v.Any {
-								return sym(v.T)
-							}
-						}
-					}
-					return env.fail("statement has no conjunct on %s", name[6:])
-				}
-				for _, set := range info.Stmt.Sets {
-					if strings.EqualFold(set.Col, name) {
-						if v := c.eval(set.Expr); !v.Any {
-							return sym(v.T)
-						}
+				// positional `?` parameters are consumed in textual order: values, then assignments, then the WHERE
+				// conjuncts; every expression before the wanted one is evaluated so that the right argument is taken
+				var found *SQLVal
+				take := func(match bool, x *SQLExpr) {
+					v := c.eval(x)
+					if match && found == nil {
+						found = &v
 					}
 				}
 				for i, col := range info.Stmt.Cols {
-					if strings.EqualFold(col, name) {
-						if v := c.eval(info.Stmt.Values[i]); !v.Any {
-							return sym(v.T)
-						}
+					if i < len(info.Stmt.Values) {
+						take(!strings.HasPrefix(name, "where:") && strings.EqualFold(col, name), info.Stmt.Values[i])
 					}
+				}
+				for _, set := range info.Stmt.Sets {
+					take(!strings.HasPrefix(name, "where:") && strings.EqualFold(set.Col, name), set.Expr)
+				}
+				for _, cj := range conjuncts(info.Stmt.Where) {
+					if cj.Op == "=" && len(cj.Args) == 2 && cj.Args[0].Op == "col" {
+						take(strings.HasPrefix(name, "where:") && strings.EqualFold(cj.Args[0].Name, name[min(6, len(name)):]), cj.Args[1])
+					} else {
+						c.eval(cj)
+					}
+				}
+				if found != nil && !found.Any {
+					return sym(found.T)
+				}
+				if strings.HasPrefix(name, "where:") {
+					return env.fail("statement has no conjunct on %s", name[6:])
 				}
 				return env.fail("statement does not assign %s", name)
 			}
@@ -884,6 +890,17 @@ func (env *rEnv) call(n *rNode) Value {
 			}
 			return sym(TFalse)
 		}
+	case "lastinsertid", "lastrowsaffected":
+		// what the result of the last executed statement reports
+		for i := len(env.post.trace) - 1; i >= 0; i-- {
+			if ev := env.post.trace[i]; ev.Kind == "sqlresult" {
+				if n.Text == "lastinsertid" {
+					return sym(ev.Terms["last"])
+				}
+				return sym(ev.Terms["rows"])
+			}
+		}
+		return env.fail("no statement was executed on this path")
 	case "stmtText":
 		// stmtText(i): the text of the i-th SQL statement issued on this path
 		if idx, ok := constIndex(env.eval(n.Args[0])); ok {
